@@ -1016,6 +1016,95 @@ def run_cancel_hist(client, base, desc):
     return fails, stats
 
 
+# --------------------------------------------------------------------------------------------------
+# stream `mkdir_histories` (added after seeded change C10-7): a `mkdir` tool command with consumers of its directory node, through the
+# keep-going clients (its failed result IS recorded).  Failure flavour: a REGULAR FILE at the directory's path.  Repair flavours: the obstacle
+# is removed, or the user replaces the file by a directory BY HAND.  The mkdir command runs in-process (no side-effect log): that it was
+# retried is read from what the engine records (build.db: value kind of the command) and from its consumers, which must execute.
+# --------------------------------------------------------------------------------------------------
+def mkdir_manifest(v):
+    chain = v % 2 == 1
+    L = ["client:", "  name: basic", "  version: 0", "", "targets:", '  "": ["<all>"]', "", "commands:",
+         '  "M":', "    tool: mkdir", '    outputs: ["dir/sub"]',
+         '  "C":', "    tool: shell", '    inputs: ["dir/sub", "src/C.src"]', '    outputs: ["o/C.a"]',
+         '    args: ["/bin/sh", "-c", "echo C >> log; cat src/C.src > o/C.a; echo x > dir/sub/made-by-C"]',
+         '  "I":', "    tool: shell", '    inputs: ["src/I.src"]', '    outputs: ["o/I.a"]', '    args: ["/bin/sh", "-c", "echo I >> log; cat src/I.src > o/I.a"]']
+    outs = ["o/C.a", "o/I.a"]
+    if chain:
+        L += ['  "D":', "    tool: shell", '    inputs: ["o/C.a"]', '    outputs: ["o/D.a"]', '    args: ["/bin/sh", "-c", "echo D >> log; cat o/C.a > o/D.a"]']
+        outs.append("o/D.a")
+    L += ['  "<all>":', "    tool: phony", "    inputs: [%s]" % ", ".join('"%s"' % o for o in outs), '    outputs: ["<all>"]']
+    return "\n".join(L) + "\n", (["C", "D"] if chain else ["C"])
+
+
+def run_mkdir_hist(client, base, v, kinds):
+    """v: bit 0 chain consumer, bit 1 a successful build first, bit 2 repair by hand (else: obstacle removed), bit 3 failing build twice"""
+    fails = []
+    d = os.path.join(base, "m%d-%s" % (v, client.name))
+    shutil.rmtree(d, ignore_errors=True)
+    for sub in ("src", "o", "dir"):
+        os.makedirs(os.path.join(d, sub))
+    man, consumers = mkdir_manifest(v)
+    open(os.path.join(d, "build.llbuild"), "w").write(man)
+    for n in ("C", "I"):
+        open(os.path.join(d, "src", n + ".src"), "w").write("src of %s\n" % n)
+    st = {"n": 0, "label": ""}
+    by_hand = bool(v & 4)
+
+    def bad(what, **kw):
+        f = {"what": "[%s client, mkdir history %d, build %d: %s] %s" % (client.name, v, st["n"], st["label"], what), "route": "e2e",
+             "stream": "mkdir-history", "client": client.name, "jobs": 1, "input": {"desc": {"mkdir": True, "v": v}, "jobs": 1, "client": client.name}}
+        f.update(kw)
+        fails.append(f)
+
+    def build(label):
+        st["n"], st["label"] = st["n"] + 1, label
+        failed, log, out = client.build(d, 1)
+        try:
+            kind = db_snapshot(os.path.join(d, "build.db"), kinds).get(b"CM", ("<no record>", []))[0]
+        except Exception as e:
+            kind = "<unreadable: %s>" % e
+        return failed, log, out, kind
+    sub = os.path.join(d, "dir", "sub")
+    if v & 2:
+        failed, log, out, kind = build("initial build, nothing fails")
+        if failed or sorted(log) != sorted(consumers + ["I"]) or kind != "SuccessfulCommand":
+            bad("initial build did not succeed and run every command (%s log=%s mkdir record %s)" % (out, log, kind), clause="reference")
+        shutil.rmtree(sub, ignore_errors=True)
+    open(sub, "w").write("a regular file where the directory has to be\n")
+    for rep in range(2 if v & 8 else 1):
+        failed, log, out, kind = build("a regular file is at the directory's path%s" % (" (again, nothing changed)" if rep else ""))
+        if not failed:
+            bad("the build reports success (%s) although the mkdir command cannot create its directory" % out, clause="build-reports-failure", modes=["mkdir-obstacle"], only_killed=False)
+        if kind not in ("FailedCommand",):
+            bad("the recorded result of the failed mkdir command is %s" % kind, clause="rerun", command="M", mode="mkdir-obstacle")
+        for nm in log:
+            if nm in consumers:
+                bad("%s executed although it consumes (transitively) the directory of the failed mkdir command" % nm, clause="no-downstream-execution", command=nm)
+    os.unlink(sub)
+    if by_hand:
+        os.mkdir(sub)
+    failed, log, out, kind = build("after the repair: %s" % ("the user replaced the file by a directory by hand" if by_hand else "the obstacle was removed"))
+    if failed:
+        bad("the build after the repair reports failure (%s)" % out, clause="converges")
+    if kind != "SuccessfulCommand":
+        bad("the failed mkdir command was not retried: its recorded result is still %s (%s)" % (kind, out), clause="rerun", command="M",
+            mode="mkdir-obstacle", by_hand=by_hand)
+    notrun = [nm for nm in consumers if nm not in log]
+    if notrun:
+        bad("the build reports %s (%s) but the consumers %s of the directory (skipped for the failure) were NOT executed; executed: %s" % (
+            "failure" if failed else "success", out, notrun, log), clause="rerun", command=notrun[0], mode="mkdir-obstacle", by_hand=by_hand)
+    if not os.path.isdir(sub) or not all(os.path.isfile(os.path.join(d, "o", nm + ".a")) for nm in consumers):
+        bad("after the repaired build the directory or an output of its consumers is missing", clause="converges")
+    failed, log, out, kind = build("null build")
+    if failed or log:
+        bad("not a null build: %s executed=%s" % (out, log), clause="converges")
+    if client.name == "session":
+        client.drop(d)
+    shutil.rmtree(d, ignore_errors=True)
+    return fails
+
+
 class Check(PropertyCheck):
     prop = "C10"
     module = "LLBuild.Props.C10All"
@@ -1277,7 +1366,12 @@ class Check(PropertyCheck):
                 rp = json.load(open(ctx.replay_path))
                 inp = rp.get("failure", {}).get("input", {})
                 dj = inp.get("desc") if isinstance(inp, dict) else None
-                if dj and dj.get("cancel"):
+                if dj and dj.get("mkdir"):
+                    self.mkdir_replay = (dj["v"], inp.get("client"))
+                    self.cancel_replay = None
+                    descs.append(None)
+                    self._mk = True
+                elif dj and dj.get("cancel"):
                     self.cancel_replay = CancelDesc(None, dj["idx"], fixed=dj)
                     descs.append(None)
                 elif dj and dj.get("ext"):
@@ -1309,7 +1403,10 @@ class Check(PropertyCheck):
             descs += [Desc(ctx.rng, i) for i in range(n)]
             descs += fixed_descx()
             descs += [DescX(ctx.rng, 3000 + i) for i in range(nx)]
-        if getattr(self, "cancel_replay", None) is not None:
+        if getattr(self, "_mk", False):
+            self._mk = False
+            cdescs, descs = [], []
+        elif getattr(self, "cancel_replay", None) is not None:
             cdescs, descs = [self.cancel_replay], []
             self.cancel_replay = None
         elif getattr(ctx, "replay_path", None) and descs:
@@ -1393,6 +1490,25 @@ class Check(PropertyCheck):
             res.distribution[key] = tot
         self.clientx_part(ctx, res, [r[1].get("clientx") for r in results if r and r[1] and r[1].get("clientx")])
         self.cancel_part(ctx, res, base, cdescs)
+        # stream `mkdir_histories`: 16 variants x {keep-going, session}
+        if not getattr(ctx, "replay_path", None) or getattr(self, "mkdir_replay", None):
+            only, self.mkdir_replay = getattr(self, "mkdir_replay", None), None
+            kg, se = InProc(ctx.exe[("vc10", "plain")]), Session(ctx.exe[("vc10", "plain")])
+            nb = 0
+            for v in range(16):
+                for cl in (kg, se):
+                    if only and only != (v, cl.name):
+                        continue
+                    try:
+                        res.oracle_failures += run_mkdir_hist(cl, base, v, KINDS)
+                    except Exception as e:
+                        res.oracle_failures.append({"what": "mkdir history crashed: %r" % e, "route": "e2e", "stream": "mkdir-history", "clause": "harness",
+                                                    "input": {"desc": {"mkdir": True, "v": v}, "jobs": 1, "client": cl.name}})
+                    nb += 1
+            kg.close(); se.close()
+            res.evaluations += nb
+            res.distribution["mkdir_histories"] = {"histories": nb, "repair_by_hand": nb // 2, "obstacle_removed": nb - nb // 2,
+                                                   "after_successful_build": nb // 2, "failing_build_repeated": nb // 2}
         shutil.rmtree(base, ignore_errors=True)
 
     def cancel_part(self, ctx, res, base, cdescs):
